@@ -180,7 +180,8 @@ def run(e, op, n, segment_level=False):
                 src = SliceRef(cell, (), 0, n)
             else:
                 src = VecV(segs)
-            itr = itp.call_function(cands[0], [src, knot])
+            from interp import into_iter
+            itr = into_iter(itp.call_function(cands[0], [src, knot]))
             out = []
             for _ in range(n + 1):
                 x = itr.next(itp)
